@@ -1,3 +1,4 @@
 //! Code shared by the per-property binaries of this crate (src/bin/cNN.rs).
 
 pub mod docmodel;
+pub mod lspsched;
